@@ -137,17 +137,25 @@ impl Prop for C19 {
         let o = Opts { data: rng.coin(), func: rng.chance(1, 4), tron: false, stop: true, max_lines: 24, input: false, frac: rng.coin(), strings: rng.coin(), arrays: rng.coin() };
         let mut p = gen::generate(rng, o);
         p.number(if rng.chance(1, 6) { 0 } else { rng.range(1, 60) as u16 }, *rng.pick(&[2u16, 5, 10]));
+        // now and then the last line of the program is the highest legal line
+        if rng.chance(1, 4) {
+            let top = p.nums.iter().max_by_key(|(_, v)| **v).map(|(k, _)| *k);
+            if let Some(k) = top {
+                p.nums.insert(k, 65_529);
+                ctx.count("last_line_is_65529");
+            }
+        }
         let used: Vec<u16> = p.nums.values().copied().collect();
         // a number that is not a line
         let missing: u16 = loop {
-            let c = match rng.usize(4) {
+            let c: u32 = match rng.usize(4) {
                 3 => 0,
-                0 => *rng.pick(&used) + 1,
-                1 => rng.range(0, 65_529) as u16,
-                _ => *used.iter().max().unwrap_or(&0) + rng.range(1, 999) as u16,
+                0 => *rng.pick(&used) as u32 + 1,
+                1 => rng.range(0, 65_529) as u32,
+                _ => *used.iter().max().unwrap_or(&0) as u32 + rng.range(1, 999) as u32,
             };
-            if !used.contains(&c) {
-                break c;
+            if c <= 65_529 && !used.contains(&(c as u16)) {
+                break c as u16;
             }
         };
         let dangling = 1_000_000usize;
